@@ -136,6 +136,57 @@ CHECKS = {
         note=TB_COMMON + "Transfer to detect_type/infer_type is not proved (whole-column parsers such as pd.to_datetime are oracles); it is checked dynamically. Known findings F11a, F11b, F11np, F11list.",
         technique="Coq proof (permutation / repetition invariance of translated predicates via Permutation lemmas) + exhaustive small-permutation oracle on the implementation",
     ),
+    "C03": dict(
+        text=("Coq composition theorems over the reference walk (which the generated infer is proved to compute): if every relation that is taken lands in its target type and the root "
+              "contains the input, the cast data is contained in the last type of the returned path; the cast data is exactly the guarded composition of the path's transformers. The "
+              "per-relation obligation (each shipped coercion lands inside its target, detect(cast) = infer_type) is decided on the implementation for every relation of every shipped "
+              "typeset over the shared streams on pandas, numpy and list inputs. Several genuine defects were repaired (all-NaN complex, URL/Complex/Float/Boolean casts on missing values)."),
+        ref="DESIGN.md section 6 (C03)",
+        note=TB_COMMON + "The shipped transformers/guards themselves are not modelled in Coq (pandas astype / parsers are third-party): their 'lands in target' facts come from the oracle. Known findings for the numpy and list backends.",
+        technique="Coq proof (induction over the guarded walk: lands-in-target composes) + per-relation oracle on the implementation",
+    ),
+    "C04": dict(
+        text=("Coq theorems over the reference walk: where a traversal stopped every later traversal arriving with the same data stops too (guards ignore the state), and a traversal that only "
+              "takes identity-transformer relations returns its input; with C03 this gives infer(cast x) = infer x and cast(cast x) = cast x. The remaining per-relation facts are decided on the "
+              "implementation: re-inference and re-cast of the cast data for all streams, typesets and backends."),
+        ref="DESIGN.md section 6 (C04)",
+        note=TB_COMMON + "That shipped guards are false on already-coerced data (L4) is an oracle fact, not a Coq theorem.",
+        technique="Coq proof (stability of the stop condition; identity paths return their input) + re-inference oracle",
+    ),
+    "C05": dict(
+        text=("Coq proof over the GENERATED engine: identity_transform returns its argument; a traversal taking only identity-transformer relations - every detect, and every infer without an "
+              "inference edge - returns the very data it was given (for contains-guarded graphs detect's data component is the input and the state is untouched). Non-mutation: model values are "
+              "immutable, the translator rejects stores into arguments; on the implementation deep snapshots (values, dtype, index, name, element identities) are compared around every public "
+              "call and around every relation, accepted or rejected, for pandas, numpy, list and DataFrame inputs, and object identity of no-op casts is checked with `is`."),
+        ref="DESIGN.md section 6 (C05)",
+        note=TB_COMMON + "Object identity and in-place mutation inside third-party libraries are runtime behaviour the model cannot exhibit: partial, covered by the dynamic snapshots.",
+        technique="Coq proof (no-op traversals return their input) + translator effect discipline + snapshot/identity oracle",
+    ),
+    "C06": dict(
+        text=("Coq proof about the GENERATED infer: the returned data is the input pushed through exactly the transformers of the returned path, in order, each only after its guard accepted the "
+              "data as it was at that point; DataFrames are per-column (C08). Shape/index/name/null-position preservation and element-wise exact decoding of each shipped relation, and that "
+              "guards test the exact round trip, are checked on the implementation position by position against independent decoders for every pandas stream input (two genuine defects repaired: "
+              "Geometry cast dropped index/name, URL cast mangled missing values)."),
+        ref="DESIGN.md section 6 (C06)",
+        note=TB_COMMON + "Element-level decoding facts of astype/parsers are oracle facts. numpy/list inputs are covered through C03/C04 oracles only.",
+        technique="Coq proof (cast = guarded composition of the path) + position-wise decoder oracle",
+    ),
+    "C07": dict(
+        text=("Coq proofs over the regenerated pandas predicates: an empty column belongs to no shipped type but Generic; any dtype for which the pandas family predicate answers True (any width, "
+              "numpy or nullable, any placement of missing values) is recognised as Integer / Float / Boolean / DateTime. String- and object-encoded families pass through parser relations and are "
+              "decided on the implementation over the family x encoding x sentinel x position x length x index grid."),
+        ref="DESIGN.md section 6 (C07)",
+        note=TB_COMMON + "Known findings F07a (object-dtype numbers stay Object), F07b (string-encoded Path/UUID/IP/Email/Geometry with missing values stay String).",
+        technique="Coq proof (emptiness and dtype-family lemmas on translated predicates) + encoding-grid oracle",
+    ),
+    "C09": dict(
+        text=("Coq proof over the regenerated pandas membership predicates: for every abstract series they return a boolean and never raise; Generic contains everything. Totality of detect / "
+              "infer / cast through the inference relations (third-party parsers) is decided on the implementation over all streams incl. adversarial strings and every dtype x value-kind "
+              "combination, on pandas, numpy and list inputs; five genuine crashes were repaired."),
+        ref="DESIGN.md section 6 (C09)",
+        note=TB_COMMON + "Exceptions raised inside pandas/shapely/urllib for reasons outside the model are only reachable dynamically. Known findings F09c, F09list, F09np.",
+        technique="Coq proof (totality of translated predicates by case analysis) + crash oracle over adversarial streams",
+    ),
 }
 
 
